@@ -7,6 +7,9 @@ count, step counter).  A fresh interpreter then loads each selected restart docu
 the documented way (read_json -> <Driver>.from_dict -> attach a calculator), runs the
 remaining n-k steps and reports its digest stream, which must equal the reference's for
 steps k+1..n (and the loaded state must equal the saved one).
+Restart points: every k in 0..n on both tiers.  Workloads include tables whose names
+are not in alphabetical order, a forced-only move of weight 0, cell moves that leave
+the Cartesian positions alone, and a non-default accessible volume.
 """
 from __future__ import annotations
 
